@@ -188,26 +188,30 @@ func makeHTTPServerWithHeaderLimit(s *http.Server, group []*SiteConfig) *http.Se
 // SiteConfig in the group. (Timeouts are important for mitigating
 // slowloris attacks.)
 func makeHTTPServerWithTimeouts(addr string, group []*SiteConfig) *http.Server {
-	// find the minimum duration configured for each timeout
+	// find the strictest duration configured for each timeout;
+	// a value of 0 means "no timeout", which is the least strict
+	stricter := func(a, b time.Duration) bool {
+		return a != 0 && (b == 0 || a < b)
+	}
 	var min Timeouts
 	for _, cfg := range group {
 		if cfg.Timeouts.ReadTimeoutSet &&
-			(!min.ReadTimeoutSet || cfg.Timeouts.ReadTimeout < min.ReadTimeout) {
+			(!min.ReadTimeoutSet || stricter(cfg.Timeouts.ReadTimeout, min.ReadTimeout)) {
 			min.ReadTimeoutSet = true
 			min.ReadTimeout = cfg.Timeouts.ReadTimeout
 		}
 		if cfg.Timeouts.ReadHeaderTimeoutSet &&
-			(!min.ReadHeaderTimeoutSet || cfg.Timeouts.ReadHeaderTimeout < min.ReadHeaderTimeout) {
+			(!min.ReadHeaderTimeoutSet || stricter(cfg.Timeouts.ReadHeaderTimeout, min.ReadHeaderTimeout)) {
 			min.ReadHeaderTimeoutSet = true
 			min.ReadHeaderTimeout = cfg.Timeouts.ReadHeaderTimeout
 		}
 		if cfg.Timeouts.WriteTimeoutSet &&
-			(!min.WriteTimeoutSet || cfg.Timeouts.WriteTimeout < min.WriteTimeout) {
+			(!min.WriteTimeoutSet || stricter(cfg.Timeouts.WriteTimeout, min.WriteTimeout)) {
 			min.WriteTimeoutSet = true
 			min.WriteTimeout = cfg.Timeouts.WriteTimeout
 		}
 		if cfg.Timeouts.IdleTimeoutSet &&
-			(!min.IdleTimeoutSet || cfg.Timeouts.IdleTimeout < min.IdleTimeout) {
+			(!min.IdleTimeoutSet || stricter(cfg.Timeouts.IdleTimeout, min.IdleTimeout)) {
 			min.IdleTimeoutSet = true
 			min.IdleTimeout = cfg.Timeouts.IdleTimeout
 		}
